@@ -78,11 +78,13 @@ func freeID(used map[uint32]bool, id uint32) uint32 {
 // an ENABLED primary.
 func drawBase(rt *rapid.T) *base {
 	// the asymmetric classes have the parsers with the most checks: drawn three times as often
-	classes := append(append([]keys.Class{}, keys.Classes()...), legacyClass, keys.Signature, keys.Signature, keys.Signature, keys.Hybrid, keys.Hybrid, keys.JWTSignature, keys.JWTSignature)
+	classes := append(append([]keys.Class{}, keys.Classes()...), legacyClass, envelopeClass, keys.Signature, keys.Signature, keys.Signature, keys.Hybrid, keys.Hybrid, keys.JWTSignature, keys.JWTSignature)
 	b := &base{class: rapid.SampledFrom(classes).Draw(rt, "class"), ks: &tinkpb.Keyset{}}
 	n := rapid.IntRange(1, 4).Draw(rt, "nkeys")
 	used := map[uint32]bool{}
-	if b.class == legacyClass {
+	if b.class == envelopeClass {
+		drawEnvelopeBase(rt, b, n, used)
+	} else if b.class == legacyClass {
 		kind := rapid.SampledFrom([]string{legacykm.MacURL, legacykm.AeadURL, legacykm.DaeadURL, legacykm.SignerURL, legacykm.VerifierURL, legacykm.HybridPrivURL, legacykm.HybridPubURL, legacykm.UnknownMatURL, legacykm.RemoteURL}).Draw(rt, "legacy_url")
 		for i := 0; i < n; i++ {
 			label := fmt.Sprintf("k%d", i)
